@@ -127,6 +127,20 @@ func c17Valid(c *core.Ctx) {
 	}
 	ps := GenPSet(model, c.R, genOpts{widthClass: wc})
 	in := GenInputs(model, c.R, T, ps)
+	// a corrupt record: one step (not the first) of every series holds an absurd but valid JSON number. For these
+	// (non-iterative) kernels the direct run answers NaN or an infinity at that step only - the runner must deliver it as
+	// the strings NaN / +Inf / -Inf in the middle of ordinary numbers
+	corrupt := false
+	switch model {
+	case "BankErosion", "ClimateVariables", "DynamicSednetGully", "DynamicSednetGullyAlt", "USLEFineSedimentGeneration", "ApplyScalingFactor", "Sum":
+		if T >= 3 && c.R.Bool(0.6) {
+			k := c.R.IntRange(1, T-1)
+			for j := range in {
+				in[j][k] = pick(c.R, 1e200, 1e200, -1e200, 1.7e308)
+			}
+			corrupt = true
+		}
+	}
 	req := jReq{Name: model}
 	// random subset and order of parameters / inputs
 	suppliedP := map[string]bool{}
@@ -153,6 +167,9 @@ func c17Valid(c *core.Ctx) {
 	c.Begin(map[string]interface{}{"model": model, "request": json.RawMessage(body)})
 	isTable := tableModel(model)
 	c.Class(fmt.Sprintf("valid/%s/missingP%v/missingI%v", model, len(suppliedP) < len(desc.Parameters), len(suppliedI) < len(desc.Inputs)))
+	if corrupt {
+		c.Tag("valid:corrupt-record-in-series")
+	}
 	attrs := []string{"table_model", fmt.Sprint(isTable)}
 	for _, p := range desc.Parameters {
 		if !suppliedP[p.Name] && len(p.Dimensions) == 0 {
@@ -610,6 +627,9 @@ func c17JsonSafe(c *core.Ctx) {
 	dims := make([]int, nd)
 	for i := range dims {
 		dims[i] = c.R.IntRange(1, 5)
+		if c.R.Bool(0.07) {
+			dims[i] = 0 // an axis without elements (the states of a model without state values): nests as []
+		}
 	}
 	n := prod(dims)
 	vals := make([]float64, n)
@@ -641,7 +661,7 @@ func c17JsonSafe(c *core.Ctx) {
 		for i := range dims {
 			step[i] = c.R.IntRange(1, 2)
 			loc[i] = c.R.IntRange(0, 2)
-			rootDims[i] = loc[i] + (dims[i]-1)*step[i] + 1 + c.R.IntRange(0, 2)
+			rootDims[i] = loc[i] + max(dims[i]-1, 0)*step[i] + 1 + c.R.IntRange(0, 2)
 		}
 		root := data.NewArrayFloat64(rootDims)
 		arr = root.Slice(loc, cpInts(dims), step)
@@ -652,6 +672,9 @@ func c17JsonSafe(c *core.Ctx) {
 		arr = data.ArrayFromSliceFloat64(append([]float64{}, vals...), cpInts(dims))
 	}
 	for shift := 0; shift < nd; shift++ {
+		if shift > 0 && dims[shift-1] == 0 {
+			break // the leading indices are fixed at 0: there is no such element on an axis of extent 0
+		}
 		var res []interface{}
 		if !c.Guard("jsonsafe-panic", "JsonSafeArray", func() { res = owjs.JsonSafeArray(arr, shift) }) {
 			return
@@ -681,7 +704,16 @@ func c17JsonSafe(c *core.Ctx) {
 			}
 			return true
 		}
-		if !walk(res, shift, make([]int, nd)) {
+		// what is judged is the document: the conversion's result goes through encoding/json and is read back, so that an
+		// axis without elements must arrive as [] (a nil slice would be written as null, which is not an array)
+		var decoded interface{} = res
+		if eb, err := json.Marshal(res); err == nil {
+			var back interface{}
+			if json.Unmarshal(eb, &back) == nil {
+				decoded = back
+			}
+		}
+		if !walk(decoded, shift, make([]int, nd)) {
 			b, _ := json.Marshal(res)
 			c.Violate("jsonsafe-nesting", "JsonSafeArray", fmt.Sprintf("JsonSafeArray(array of shape %v, view=%v, shiftDim=%d) = %s does not nest like dims %v with the array's values", dims, useView, shift, headStr(string(b), 400), dims[shift:]))
 			return
